@@ -49,8 +49,41 @@ type variant struct {
 	LevelDB bool `json:"leveldb"` // production backend (slow to open on a loaded machine); otherwise chain33's memdb backend
 }
 
+// paraTitle is the title of the para-chain configuration. On a para chain every executor name carries the title
+// ("user.p.c14.coins") and a coins transfer / transferToExec / withdraw has tx.To = the coins contract address while the
+// recipient sits in the payload (tx.GetRealToAddr() != tx.To).
+const paraTitle = "user.p.c14."
+
+// procTitle is the chain title of this process ("" = the default main-chain test configuration). Executor types are
+// registered once per process with the first configuration, so one process hosts one title only: the main-chain and the
+// para-chain properties run in separate processes (separate prop entries of checks.d/C14.json).
+var (
+	procTitle    string
+	procTitleSet bool
+)
+
+// useTitle claims the process for a title; false when the process already hosts the other one.
+func useTitle(title string) bool {
+	if procTitleSet && procTitle != title {
+		return false
+	}
+	procTitle, procTitleSet = title, true
+	return true
+}
+
+// ex is the executor name as transactions of this process's chain spell it.
+func ex(name string) string { return procTitle + name }
+
+func realExec(tx *types.Transaction) string { return string(types.GetRealExecName(tx.Execer)) }
+
 func cfgString(v variant, mvccInNode bool) string {
 	s := types.GetDefaultCfgstring()
+	if procTitle != "" {
+		if strings.Count(s, `Title="local"`) != 1 {
+			fixturef("default config: Title line not found")
+		}
+		s = strings.Replace(s, `Title="local"`, `Title="`+procTitle+`"`, 1)
+	}
 	rep := func(old, new string) {
 		if strings.Count(s, old) != 1 {
 			fixturef("default config: %q occurs %d times", old, strings.Count(s, old))
@@ -233,6 +266,7 @@ type txSpec struct {
 	Key     string   `json:"key,omitempty"`     // manage
 	Op      string   `json:"op,omitempty"`      // manage
 	Value   string   `json:"value,omitempty"`   // manage
+	EmptyTo bool     `json:"emptyTo,omitempty"` // manage: legacy shape without a To field (real recipient = the manage contract address)
 	Ops     []vop    `json:"ops,omitempty"`     // vlocal: local operations (see vlocal_test.go)
 	Members []txSpec `json:"members,omitempty"` // group
 }
@@ -241,7 +275,7 @@ func targetAddr(i int) string {
 	if i < len(poolAddrs) {
 		return poolAddrs[i]
 	}
-	return address.ExecAddress(execNames[i-len(poolAddrs)])
+	return address.ExecAddress(ex(execNames[i-len(poolAddrs)]))
 }
 
 func nTargets() int { return len(poolAddrs) + len(execNames) }
@@ -249,35 +283,47 @@ func nTargets() int { return len(poolAddrs) + len(execNames) }
 func (n *node) rawTx(s txSpec) *types.Transaction {
 	n.nonce++
 	tx := &types.Transaction{Fee: s.Fee, Nonce: n.nonce, ChainID: n.cfg.GetChainID()}
+	// coins: on the main chain tx.To is the recipient itself; on a para chain tx.To is the coins contract address and
+	// only the payload names the recipient
+	coinsTo := func(recipient string) string {
+		if procTitle != "" {
+			return address.ExecAddress(ex("coins"))
+		}
+		return recipient
+	}
+	manageTo := address.ExecAddress(ex("manage"))
+	if s.EmptyTo {
+		manageTo = ""
+	}
 	switch s.Kind {
 	case "transfer":
 		to := targetAddr(s.To)
-		tx.Execer, tx.To = []byte("coins"), to
+		tx.Execer, tx.To = []byte(ex("coins")), coinsTo(to)
 		tx.Payload = types.Encode(&cty.CoinsAction{Ty: cty.CoinsActionTransfer,
 			Value: &cty.CoinsAction_Transfer{Transfer: &types.AssetsTransfer{Amount: s.Amount, To: to}}})
 	case "toexec":
-		to := address.ExecAddress(s.Exec)
-		tx.Execer, tx.To = []byte("coins"), to
+		to := address.ExecAddress(ex(s.Exec))
+		tx.Execer, tx.To = []byte(ex("coins")), coinsTo(to)
 		tx.Payload = types.Encode(&cty.CoinsAction{Ty: cty.CoinsActionTransferToExec,
-			Value: &cty.CoinsAction_TransferToExec{TransferToExec: &types.AssetsTransferToExec{Amount: s.Amount, ExecName: s.Exec, To: to}}})
+			Value: &cty.CoinsAction_TransferToExec{TransferToExec: &types.AssetsTransferToExec{Amount: s.Amount, ExecName: ex(s.Exec), To: to}}})
 	case "withdraw":
-		to := address.ExecAddress(s.Exec)
-		tx.Execer, tx.To = []byte("coins"), to
+		to := address.ExecAddress(ex(s.Exec))
+		tx.Execer, tx.To = []byte(ex("coins")), coinsTo(to)
 		tx.Payload = types.Encode(&cty.CoinsAction{Ty: cty.CoinsActionWithdraw,
-			Value: &cty.CoinsAction_Withdraw{Withdraw: &types.AssetsWithdraw{Amount: s.Amount, ExecName: s.Exec, To: to}}})
+			Value: &cty.CoinsAction_Withdraw{Withdraw: &types.AssetsWithdraw{Amount: s.Amount, ExecName: ex(s.Exec), To: to}}})
 	case "none":
-		tx.Execer, tx.To = []byte("none"), targetAddr(s.To)
+		tx.Execer, tx.To = []byte(ex("none")), targetAddr(s.To)
 		tx.Payload = []byte(s.Value)
 	case "modify":
-		tx.Execer, tx.To = []byte("manage"), address.ExecAddress("manage")
+		tx.Execer, tx.To = []byte(ex("manage")), manageTo
 		tx.Payload = types.Encode(&mty.ManageAction{Ty: mty.ManageActionModifyConfig,
 			Value: &mty.ManageAction_Modify{Modify: &types.ModifyConfig{Key: s.Key, Op: s.Op, Value: s.Value}}})
 	case "apply":
-		tx.Execer, tx.To = []byte("manage"), address.ExecAddress("manage")
+		tx.Execer, tx.To = []byte(ex("manage")), manageTo
 		tx.Payload = types.Encode(&mty.ManageAction{Ty: mty.ManageActionApplyConfig,
 			Value: &mty.ManageAction_Apply{Apply: &mty.ApplyConfig{Config: &types.ModifyConfig{Key: s.Key, Op: s.Op, Value: s.Value}}}})
 	case "vlocal":
-		tx.Execer, tx.To = []byte(vlocalName), address.ExecAddress(vlocalName)
+		tx.Execer, tx.To = []byte(ex(vlocalName)), address.ExecAddress(ex(vlocalName))
 		tx.Payload = vlocalPayload(s.Ops)
 	default:
 		fixturef("unknown tx kind %q", s.Kind)
@@ -476,7 +522,7 @@ func newUniverse() *universe {
 	for i := 0; i < nTargets(); i++ {
 		u.addrs = append(u.addrs, targetAddr(i))
 	}
-	u.addrs = append(u.addrs, address.ExecAddress(vlocalName))
+	u.addrs = append(u.addrs, address.ExecAddress(ex(vlocalName)))
 	return u
 }
 
